@@ -4,7 +4,7 @@
    and Cholesky are oracles: the theorems hold for ANY returned (w, V); that L^T L reproduces M is
    certified per run on exact rationals. *)
 From Coq Require Import List ZArith Reals Lra.
-From ML Require Import Ops Vec VecR MatR LinAlg PSDConv Mahalanobis MahalanobisR C20Proof.
+From ML Require Import Ops Vec VecR MatR LinAlg PSDConv Mahalanobis MahalanobisR C20Proof CovProof.
 Import ListNotations.
 Open Scope R_scope.
 
@@ -45,8 +45,21 @@ Proof.
         (conj factor_distance_unique (conj wgram_psd auto_select_rule)))))).
 Qed.
 Print Assumptions C20_partial.
-(* Not mechanised: the Cholesky branch (L = C^T with C C^T = M) and the pseudo-inverse from an
-   eigen-decomposition satisfy their equations only per run (exact-rational certificates). *)
+
+(* Cholesky branch: L = C^T.  For ANY square C: |L x|^2 = x . C (C^T x); hence whenever the factor returned by the
+   Cholesky oracle satisfies C C^T = M (as operators), L^T L reproduces M along every direction *)
+Definition C20_cholesky_statement : Prop :=
+  forall d (C M : Rm) (x : Rv), C <> [] -> length C = d -> Forall (wfvR d) C -> wfvR d x ->
+    (forall y, wfvR d y -> mvmulR C (mvmulR (transpR C) y) = mvmulR M y) ->
+    vsumsqR (mvmulR (@cfm_chol ROps C) x) = quadformR M x.
+Theorem C20_cholesky : C20_cholesky_statement.
+Proof.
+  intros d C M x Hne HL HC Hx HM. unfold cfm_chol, quadform.
+  rewrite (transp_factor_form d C x Hne HL HC Hx), (HM x Hx). reflexivity.
+Qed.
+Print Assumptions C20_cholesky.
+(* Not mechanised: that numpy's Cholesky factor satisfies C C^T = M, and the pseudo-inverse from an
+   eigen-decomposition, satisfy their equations only per run (exact-rational certificates). *)
 
 Example C20_nonvacuous : check_sdpR [1; 2; -1/4] (1/2) = SdpNotDefinite /\ check_sdpR [1; -1] (1/2) = SdpNonPSD.
 Proof.
